@@ -120,6 +120,7 @@ class PhasedISwapPowGate(eigen_gate.EigenGate):
         return self.__class__(
             phase_exponent=protocols.resolve_parameters(self.phase_exponent, resolver, recursive),
             exponent=protocols.resolve_parameters(self.exponent, resolver, recursive),
+            global_shift=self.global_shift,
         )
 
     def _with_exponent(self, exponent: value.type_alias.TParamVal) -> PhasedISwapPowGate:
